@@ -245,7 +245,7 @@ Qed.
 (* --- steps that only write --------------------------------------------------------------- *)
 Definition writes_only (s : step) : bool :=
   match s with
-  | OpenW _ | Close | Replace _ | Remove _ _ | Forget _ => false
+  | OpenW _ | OpenElse _ _ | Close | Replace _ | Remove _ _ | Forget _ => false
   | _ => true
   end.
 
@@ -335,6 +335,12 @@ Proof.
   - destruct (fs st (pth E t0)); [destruct (a_open (e_adv E))|destruct (a_open (e_adv E))|];
       inversion H; subst; try apply frame_refl;
       intros q Hd Ht; simpl; apply upd_other; destruct (pth_cases t0) as [-> | ->]; auto.
+  - (* OpenElse: whichever path is opened, it is the destination or the temporary *)
+    assert (G : forall tg pd, frame st (with_pend (with_fs st (upd (fs st) (pth E tg) (File "")) (Some tg)) pd)).
+    { intros tg pd q Hd Ht; simpl; apply upd_other; destruct (pth_cases tg) as [-> | ->]; auto. }
+    destruct (fs st (pth E t0)); [destruct (a_open (e_adv E))|destruct (a_open (e_adv E))|];
+      try (inversion H; subst; apply G);
+      destruct (fs st (pth E u)); inversion H; subst; try apply frame_refl; apply G.
   - inversion H; subst. intros q _ _; reflexivity.
   - destruct (cond_holds c ok (pend st)); [|inversion H; subst; apply frame_refl].
     destruct (handle st); [inversion H; subst; apply frame_refl|].
@@ -407,6 +413,10 @@ Proof.
   { destruct (exec_step_wrote _ _ _ _ _ Hs H) as (W & Hw). eapply wrote_dest; eauto. }
   destruct s; simpl in Hs; try discriminate; simpl in H.
   - destruct t0; simpl in Hnd; try discriminate. simpl in H. fold t in H.
+    destruct (fs st t); [destruct (a_open (e_adv E))|destruct (a_open (e_adv E))|];
+      inversion H; subst; auto; simpl; (split; [apply upd_other; auto|unfold safe; simpl; congruence]).
+  - (* OpenElse Temp Temp is the only one that does not name the destination *)
+    destruct t0, u; simpl in Hnd; try discriminate. simpl in H. fold t in H.
     destruct (fs st t); [destruct (a_open (e_adv E))|destruct (a_open (e_adv E))|];
       inversion H; subst; auto; simpl; (split; [apply upd_other; auto|unfold safe; simpl; congruence]).
   - inversion H; subst. simpl. split; auto. unfold safe; simpl; congruence.
